@@ -1,9 +1,11 @@
-mod rng; mod util; mod c17;
+mod rng; mod util; mod c17; mod oplist; mod ops; mod amod; mod c03;
 fn main() {
     util::quiet_panics();
     let args: Vec<String> = std::env::args().collect();
     match args.get(1).map(|s| s.as_str()) {
         Some("c17") => c17::main(&args[2..]),
+        Some("oplist") => oplist::main(),
+        Some("c03") => c03::main(&args[2..]),
         _ => { eprintln!("usage: vh <subcommand> ..."); std::process::exit(2) }
     }
 }
